@@ -13,6 +13,7 @@ changed); an edit anywhere else changes the skeleton and is refused (TranslateEr
   item_c10_extract       sensordata.SensorCache._extract, dummy_sensor_getter, the sort / keep-last of
                          remove_duplicates_and_invalid_values, SensorCache.get (the extraction call)
   item_c10_tables        dataset.DEFAULT_SENSOR_PROPS and the SENSOR_PROPS of h5datav1/2/3, visdatav4
+  item_c10_values        categorical.ComparableArrayWrapper (__eq__, __ne__, __hash__, unwrap), unique_in_order
 """
 import ast
 import copy
@@ -717,4 +718,79 @@ def item_c10_tables(repo, out):
         out.append('Definition c10_table_%s : list c10_props := [\n%s].' % (tag, ';\n'.join(rows)))
 
 
-ITEMS = [item_c10_generator, item_c10_s2c, item_c10_catdata, item_c10_extract, item_c10_tables]
+# --------------------------------------------------------------------------------------------- value equality
+
+CAW_EQ_SKELETON = """
+def __eq__(self, other):
+    if isinstance(other, ComparableArrayWrapper):
+        other = other.unwrapped
+    if HOLE_c10_eq_as_arrays(isinstance(self.unwrapped, np.ndarray), isinstance(other, np.ndarray)):
+        return np.array_equal(self.unwrapped, other)
+    else:
+        return self.unwrapped == other
+"""
+CAW_NE_SKELETON = """
+def __ne__(self, other):
+    return not self == other
+"""
+CAW_HASH_SKELETON = """
+def __hash__(self):
+    return hash(self.unwrapped)
+"""
+CAW_UNWRAP_SKELETON = """
+def unwrap(v):
+    return v.unwrapped if isinstance(v, ComparableArrayWrapper) else v
+"""
+CAW_INIT_SKELETON = """
+def __init__(self, value):
+    self.unwrapped = value
+"""
+UNIQUE_SKELETON = """
+def unique_in_order(elements, return_inverse=False):
+    elements = list(elements)
+    (unique_elements, inverse) = ([], [])
+    try:
+        lookup = collections.OrderedDict(zip(elements, len(elements) * [0]))
+    except TypeError:
+        lookup = {}
+        for element in elements:
+            token = tokenize(ComparableArrayWrapper.unwrap(element))
+            try:
+                index = lookup[token]
+            except KeyError:
+                index = len(unique_elements)
+                lookup[token] = index
+                unique_elements.append(element)
+            if return_inverse:
+                inverse.append(index)
+    else:
+        for (index, element) in enumerate(lookup):
+            lookup[element] = index
+        unique_elements = list(lookup.keys())
+        if return_inverse:
+            inverse = [lookup[element] for element in elements]
+    return (unique_elements, np.array(inverse, dtype=int)) if return_inverse else unique_elements
+"""
+
+
+def item_c10_values(repo, out):
+    """ComparableArrayWrapper: the equality sensor_to_categorical uses for repeat removal and greedy membership
+    (array-likes are compared with np.array_equal: same SHAPE and same elements, as soon as either side is an ndarray),
+    its negation, its hash, and unique_in_order (dict of the wrapped values, dask tokens when they are unhashable)."""
+    tree = _parse(repo, CAT)
+    out.append('(* katdal/categorical.py ComparableArrayWrapper.__eq__ / __ne__ / __hash__ / unwrap, unique_in_order *)')
+    sk = Skeleton(_method(tree, 'ComparableArrayWrapper', '__eq__', CAT), 'ComparableArrayWrapper.__eq__', out)
+    sk.hole(['body', 1, 'test'], 'c10_eq_as_arrays',
+            [('isinstance(self.unwrapped, np.ndarray)', 'self_is_ndarray', 'bool'),
+             ('isinstance(other, np.ndarray)', 'other_is_ndarray', 'bool')], 'bool')
+    # np.array_equal must be called with exactly (self.unwrapped, other): no equal_nan, no other comparison
+    sk.finish(CAW_EQ_SKELETON)
+    for name, skel in (('__ne__', CAW_NE_SKELETON), ('__hash__', CAW_HASH_SKELETON), ('unwrap', CAW_UNWRAP_SKELETON),
+                       ('__init__', CAW_INIT_SKELETON)):
+        Skeleton(_method(tree, 'ComparableArrayWrapper', name, CAT), 'ComparableArrayWrapper.' + name, out).finish(skel)
+    Skeleton(_module_func(tree, 'unique_in_order', CAT), 'categorical.unique_in_order', out).finish(UNIQUE_SKELETON)
+    # the repeat removal and the greedy membership of sensor_to_categorical go through these operators on the wrapped
+    # values (checked by item_c10_s2c: `sensor_values[n] != sensor_values[n - 1]`, `value in greedy_values`)
+
+
+ITEMS = [item_c10_generator, item_c10_s2c, item_c10_catdata, item_c10_extract, item_c10_tables, item_c10_values]
